@@ -732,23 +732,27 @@ impl Database {
             },
             key => {
                 {
-                    if let Some(value) = self.get_value(key.clone()) {
+                    // The key is looked at and removed under one write lock: a snapshot that
+                    // stores (or moves) the key in between would leave a key that is on disk
+                    // dropped from memory only, or a tombstone pointing at its old place on disk
+                    #[cfg(feature = "verif")]
+                    crate::verif::yield_point("remove_value.map.write");
+                    let mut db = self.map.write().unwrap();
+                    if let Some(value) = db.get(&key).cloned() {
                         // If deleted before the key is in disk remove direct from memory
                         if value.state == ValueStatus::New {
-                            #[cfg(feature = "verif")]
-                            crate::verif::yield_point("remove_value.map.write");
-                            let mut db = self.map.write().unwrap();
                             db.remove(&key);
                         } else {
-                            // value.
-                            self.set_value_version(
-                                &key,
-                                &String::from("<Empty>"),
-                                value.version.saturating_add(1),
-                                ValueStatus::Deleted,
-                                value.value_disk_addr,
-                                value.key_disk_addr,
-                                value.opp_id,
+                            db.insert(
+                                key.clone(),
+                                Value {
+                                    value: String::from("<Empty>"),
+                                    version: value.version.saturating_add(1),
+                                    state: ValueStatus::Deleted,
+                                    value_disk_addr: value.value_disk_addr,
+                                    key_disk_addr: value.key_disk_addr,
+                                    opp_id: value.opp_id,
+                                },
                             );
                         }
                     }
